@@ -173,8 +173,9 @@ Proof.
   unfold ph in *. simpl. rewrite Hq. simpl.
   rewrite (nth_error_upd_same _ _ _ _ _ Hq).
   rewrite Z. destruct (0 <? max) eqn:L; [|apply Nat.ltb_ge in L; lia].
-  eexists; split; [reflexivity|]. simpl. rewrite upd_length_same. reflexivity.
-Abort.
+  eexists; split; [reflexivity|]. unfold ph; simpl.
+  eapply nth_error_upd_same. eapply nth_error_upd_same. exact Hq.
+Qed.
 
 (* ---------------------------------------------------------------- rejected *)
 
@@ -195,7 +196,7 @@ Proof.
       * destruct He as [P _]. inversion D; subst. discriminate.
     + intros [D|D].
       * inversion D. exfalso. eapply src_not_done; eauto.
-      * subst; reflexivity.
+      * destruct e; try discriminate. reflexivity.
   - rewrite (step_other _ _ _ _ _ _ H N). split; auto.
     intros [D|D]; auto. subst. simpl in N. congruence.
 Qed.
@@ -275,9 +276,9 @@ Lemma rejected_when_full : forall max n pre q post s,
              in_use s1 = max /\ count_holding (phases s1) = max.
 Proof.
   intros max n pre q post s H. apply run_app in H as (s1 & H1 & H2). exists s1. split; auto.
-  simpl in H2. destruct (sem_step true max s1 (ETimeout q)) eqn:E; try discriminate.
+  cbn [run_trace] in H2. destruct (sem_step true max s1 (ETimeout q)) eqn:E; try discriminate.
   apply step_spec in E as (Hs & _ & (_ & G)). simpl in Hs.
-  destruct (inv_run _ _ _ _ _ (inv_init max n) H1) as [A B]. specialize (G eq_refl). split; auto. lia.
+  destruct (inv_run _ _ _ _ _ (inv_init max n) H1) as [A B]. specialize (G eq_refl). repeat split; auto; lia.
 Qed.
 
 Lemma full_blocks_acquire : forall strict max s q,
